@@ -213,6 +213,17 @@ func (e *wexpr) wgsl0() string {
 		return e.args[0].wgsl()
 	case "aint":
 		return fmt.Sprint(e.aval)
+	case "fmix": // mixed abstract-int / abstract-float remainder (C06): aval % bits, one side spelled as a float
+		a, b := fmt.Sprint(e.aval), fmt.Sprint(int32(e.bits))
+		switch e.op {
+		case "0":
+			b += ".0"
+		case "1":
+			a += ".0"
+		default:
+			a, b = a+".0", b+".0"
+		}
+		return "f32(" + a + " % " + b + ")"
 	case "aneg":
 		return "(-" + e.args[0].wgsl() + ")"
 	case "abin":
@@ -238,6 +249,8 @@ func (e *wexpr) sexp() string {
 		fmt.Fprintf(&b, "(conc %s %s)", e.ty.sexp(), e.args[0].sexp())
 	case "aint":
 		fmt.Fprintf(&b, "(aint %d)", e.aval)
+	case "fmix":
+		fmt.Fprintf(&b, "(fmix %d %d)", e.aval, int32(e.bits))
 	case "aneg":
 		fmt.Fprintf(&b, "(aneg %s)", e.args[0].sexp())
 	case "abin":
@@ -659,6 +672,9 @@ type wgenOpts struct {
 	noDynPtr   bool // no pointer argument to a dynamically indexed array element (C04 finding: RZSW ternary as a reference)
 	safeDiv    bool // integer / and % only with strictly positive divisors and non-negative dividends (C05: GLSL-undefined otherwise)
 	noFlbU     bool // no firstLeadingBit on unsigned operands (C04 finding: MSL treats all-ones like the signed case)
+	constInit  bool // private globals initialised by a named module constant or a negated literal (C04/C05 findings)
+	noValIdx   bool // no dynamic index into a by-value vector (let / parameter) (C04 finding: MSL RZSW ternary without parentheses)
+	contCall   bool // a helper that is the only user of a private global, called only from a loop's continuing block / for-update
 }
 
 type wgen struct {
@@ -1158,7 +1174,7 @@ func (g *wgen) component(t *wty, depth int) *wexpr {
 		return &wexpr{k: "idx", ty: t, args: []*wexpr{base, {k: "lit", ty: tU32, bits: uint32(g.c.rng.Intn(n)), konst: true, small: true}}}
 	}
 	// dynamic index needs an addressable or value vector: bind through a `let`-free form: index of a variable
-	vs := g.visible(func(v wscopeVar) bool { return v.ty.eq(vt) && !v.ptr })
+	vs := g.visible(func(v wscopeVar) bool { return v.ty.eq(vt) && !v.ptr && (v.mutable || !g.o.noValIdx) })
 	if len(vs) > 0 {
 		g.f("vec-index-dynamic")
 		v := vs[g.c.rng.Intn(len(vs))]
@@ -1899,6 +1915,14 @@ func genModule(c *ctx, o wgenOpts) (*wmodule, map[string]int) {
 			if hasNegLit(gl.init) {
 				g.f("private-init-negative")
 			}
+		} else if o.constInit && t.isScalar() {
+			for _, cs := range g.m.consts {
+				if cs.ty != nil && cs.ty.eq(t) && cs.k == "const" {
+					gl.init = &wexpr{k: "var", ty: t, name: cs.name, konst: true}
+					g.f("private-init-named-const")
+					break
+				}
+			}
 		}
 		g.m.globals = append(g.m.globals, gl)
 		globalsScope = append(globalsScope, wscopeVar{name: name, ty: t, mutable: true, global: true})
@@ -1950,6 +1974,10 @@ func genModule(c *ctx, o wgenOpts) (*wmodule, map[string]int) {
 	if g.m.lateDecls {
 		g.f("late-module-decls")
 	}
+	if o.contCall {
+		addContCall(c, g.m)
+		g.f("continuing-only-call")
+	}
 	return g.m, g.feat
 }
 
@@ -1966,5 +1994,56 @@ func hasNegLit(e *wexpr) bool {
 }
 
 func defaultGenOpts(c *ctx) wgenOpts {
-	return wgenOpts{shadowUse: c.chance(0.1), swBreak: c.chance(0.3), absU: c.chance(0.1), negInit: c.chance(0.1), vecInit: c.chance(0.1), rawShift: c.chance(0.1), clz: c.chance(0.1), privInit: c.chance(0.3), maxStmts: 6 + c.rng.Intn(14), maxDepth: 1 + c.rng.Intn(3), floats: c.chance(0.5), helpers: c.rng.Intn(4), structs: c.chance(0.5)}
+	return wgenOpts{shadowUse: c.chance(0.1), swBreak: c.chance(0.3), absU: c.chance(0.1), negInit: c.chance(0.1), vecInit: c.chance(0.1), rawShift: c.chance(0.1), clz: c.chance(0.1), privInit: c.chance(0.3), contCall: c.chance(0.1), maxStmts: 6 + c.rng.Intn(14), maxDepth: 1 + c.rng.Intn(3), floats: c.chance(0.5), helpers: c.rng.Intn(4), structs: c.chance(0.5)}
+}
+
+
+// addContCall appends to main a loop whose `continuing` block (or, as a `for`, whose update clause) is the only call site
+// of a fresh helper, which in turn is the only user of a fresh private global — the shape per-entry-point reachability
+// analyses must not lose.
+func addContCall(c *ctx, m *wmodule) {
+	gname, hname, iname := "gpcc", "hcont", "icc"
+	gv := &wexpr{k: "var", ty: tU32, name: gname}
+	lit := func(v uint32) *wexpr { return &wexpr{k: "lit", ty: tU32, bits: v, konst: true, small: v <= 8} }
+	m.globals = append(m.globals, &wglobal{name: gname, space: "private", ty: tU32})
+	h := &wfunc{name: hname, ret: tU32}
+	h.body = []*wstmt{
+		{k: "assign", lhs: gv, e: &wexpr{k: "bin", ty: tU32, op: "+", args: []*wexpr{gv, lit(3)}}},
+		{k: "return", e: gv},
+	}
+	m.funcs = append(m.funcs, h)
+	iv := &wexpr{k: "var", ty: tU32, name: iname}
+	out := &wexpr{k: "idx", ty: tU32, args: []*wexpr{{k: "var", ty: tArr(0, tU32), name: "outp"}, lit(15)}}
+	call := &wexpr{k: "callfn", ty: tU32, name: hname}
+	decl := &wstmt{k: "var", name: iname, ty: tU32, e: lit(0)}
+	var loop *wstmt
+	if c.chance(0.5) {
+		// loop { if icc >= 2 { break; } continuing { icc = icc + 1; outp[15] ^= hcont(); } }
+		loop = &wstmt{k: "loop",
+			body: []*wstmt{{k: "if", e: &wexpr{k: "bin", ty: tBool, op: ">=", args: []*wexpr{iv, lit(2)}}, body: []*wstmt{{k: "break"}}}},
+			els: []*wstmt{
+				{k: "assign", lhs: iv, e: &wexpr{k: "bin", ty: tU32, op: "+", args: []*wexpr{iv, lit(1)}}},
+				{k: "opassign", op: "^", lhs: out, e: call},
+			}}
+	} else {
+		// for (var icc = 0u; icc < 9u; icc += hcont()) { outp[15] += 1u; }
+		loop = &wstmt{k: "for", init: decl, e: &wexpr{k: "bin", ty: tBool, op: "<", args: []*wexpr{iv, lit(9)}},
+			upd:  &wstmt{k: "opassign", op: "+", lhs: iv, e: call},
+			body: []*wstmt{{k: "opassign", op: "+", lhs: out, e: lit(1)}}}
+		decl = nil
+	}
+	var blk []*wstmt
+	if decl != nil {
+		blk = append(blk, decl)
+	}
+	blk = append(blk, loop)
+	// before a trailing return, if any
+	body := m.entry.body
+	n := len(body)
+	if n > 0 && body[n-1].k == "return" {
+		body = append(append(append([]*wstmt{}, body[:n-1]...), &wstmt{k: "block", body: blk}), body[n-1])
+	} else {
+		body = append(body, &wstmt{k: "block", body: blk})
+	}
+	m.entry.body = body
 }
